@@ -86,7 +86,16 @@ func (t *TimerBasedElectionTrigger) Stop() {
 }
 
 func (t *TimerBasedElectionTrigger) CalcTimeout(view primitives.View) time.Duration {
-	timeoutMultiplier := time.Duration(int64(math.Pow(TIMEOUT_EXP_BASE, float64(view))))
+	const maxTimeout = time.Duration(math.MaxInt64)
+	multiplier := math.Pow(TIMEOUT_EXP_BASE, float64(view))
+	// saturate instead of wrapping around when the multiplier or the product does not fit in an int64
+	if !(multiplier < float64(math.MaxInt64)) {
+		return maxTimeout
+	}
+	timeoutMultiplier := time.Duration(int64(multiplier))
+	if timeoutMultiplier > 0 && t.minTimeout > maxTimeout/timeoutMultiplier {
+		return maxTimeout
+	}
 	return timeoutMultiplier * t.minTimeout
 }
 
